@@ -5,6 +5,10 @@ pure-Python normpath, bound into `ombott.static_stream` only (module attributes
 py_normpath   posixpath.normpath is the C function `_path_normpath` in 3.12: the
               symbolic engine cannot see through it.  This is the algorithm of
               CPython 3.10.  `validate_normpath()` compares it with the C function.
+sym_split     str.split for a one-character separator in one pass over the code points
+              of a symbolic string (plain str.split on a plain str).  CrossHair's split
+              recurses per separator; names of thousands of characters need this.  Used by
+              py_normpath and FakeFS (stub code only, never by ombott).
 FakeFS        a fixed tree of directories and regular files resolved with POSIX
               semantics (no symlinks): '' ENOENT, '.' and '..' walk the tree, '..'
               of '/' is '/', a component below a regular file is ENOTDIR, '//' is
